@@ -84,8 +84,21 @@ func (ex *Exec) siteName(fn *ssa.Function) string {
 
 // callSiteObligations: `callsite <callee> requires e` clauses of the function under verification.
 func (ex *Exec) callSiteObligations(fr *Frame, ins ssa.Instruction, cname string, args []Val) {
-	if ex.contract == nil || fr.fn != ex.root {
+	if ex.contract == nil {
 		return
+	}
+	if fr.fn != ex.root {
+		// statements an edit moved into a new helper that only the function under verification calls (soleCallee) are still
+		// its call sites; the clause is evaluated over the root function's variables, which is what it was written for
+		for _, f := range ex.st.frames[1:] {
+			if !f.sole {
+				return
+			}
+		}
+		if len(ex.st.frames) < 2 || ex.st.frames[len(ex.st.frames)-1] != fr {
+			return
+		}
+		fr = ex.st.frames[0]
 	}
 	if len(ex.contract.CallSites[cname]) > 0 {
 		if ex.callsiteHit == nil {
@@ -134,7 +147,7 @@ func (ex *Exec) staticCall(fr *Frame, ins ssa.Instruction, fn *ssa.Function, arg
 		}
 		return
 	}
-	if fn.Blocks != nil && ((c != nil && c.Inline) || (c == nil && fn.Parent() != nil && ex.isOwnClosure(fn)) || (c == nil && ex.smallLeaf(fn))) {
+	if fn.Blocks != nil && ((c != nil && c.Inline) || (c == nil && fn.Parent() != nil && ex.isOwnClosure(fn)) || (c == nil && ex.smallLeaf(fn)) || (c == nil && ex.soleCallee(fr, fn))) {
 		if len(ex.st.frames) > 12 {
 			unsup("inline depth exceeded at %s", fn.Name())
 		}
@@ -142,6 +155,7 @@ func (ex *Exec) staticCall(fr *Frame, ins ssa.Instruction, fn *ssa.Function, arg
 		nf.callIns = ins
 		nf.old = ex.st.snapshot()
 		nf.runningDefers = isDefer
+		nf.sole = c == nil && !ex.smallLeaf(fn) && !(fn.Parent() != nil && ex.isOwnClosure(fn)) && ex.soleCallee(fr, fn)
 		if c != nil {
 			env := ex.envFor(nf, nil)
 			for i, rq := range c.Requires {
@@ -1158,6 +1172,38 @@ func (ex *Exec) resultHandles(env *Env) []resTerm {
 // smallLeaf: a function of the repository without a contract that is small, loop-free and not already being executed is
 // run in place instead of being abstracted by "anything may have happened" (an extracted three-line helper stays as
 // transparent as the lines it replaced).
+// soleCallee: a package-level function or method without contract that did not exist when the contracts were locked and
+// whose only static call in its package is in the function being executed (what an "extract function" refactoring leaves
+// behind). Executing it in place keeps the
+// obligations of the extracted statements with the contract they were written for; havocking the heap at the call would
+// lose them. Loops inside it are cut like any other loop (no invariant: invariant true).
+func (ex *Exec) soleCallee(fr *Frame, fn *ssa.Function) bool {
+	if !ex.prog.isNewFunction(fn) {
+		// functions that existed when the contracts were written keep their treatment (verification conditions of the
+		// unchanged tree do not depend on this rule)
+		return false
+	}
+	if fn.Pkg == nil || fn.Blocks == nil || fn.Parent() != nil || len(fn.Blocks) > 40 {
+		return false
+	}
+	if _, loaded := ex.prog.SPkgs[funcPkgPath(fn)]; !loaded {
+		return false
+	}
+	for _, f := range ex.st.frames {
+		if f.fn == fn {
+			return false
+		}
+	}
+	if len(ex.st.frames) > 3 {
+		return false
+	}
+	if fn.Recover != nil {
+		return false
+	}
+	callers := ex.prog.staticCallers(fn)
+	return len(callers) == 1 && callers[0] == fr.fn
+}
+
 func (ex *Exec) smallLeaf(fn *ssa.Function) bool {
 	if fn.Pkg == nil || fn.Blocks == nil || len(fn.Blocks) > 8 {
 		return false
